@@ -130,7 +130,7 @@ func init() {
 			map[string]int64{"index_comparisons": 500, "replica_comparisons": 100}},
 		{"C04", cfgC04, 3200, 48000, "one case = one seeded history interleaved with random filter chains (length 1-5 over With/Without/Union/WithUnion/WithValue/WithInt/WithUint/WithFloat/WithString on indexes, value columns, bool columns and missing names); Count, the Range sequence and Sum/Avg/Min/Max over a random numeric column are compared with set algebra over the dumped rows and values (float values are dyadic rationals so every summation order is exact); non-trivial = at least 3 committed transactions",
 			map[string]int64{"filter_chains": 500, "aggregates": 300}},
-		{"C07", cfgC07, 1200, 32000, "one case = one seeded history with snapshot->restore cycles into fresh collections of the same schema (same or different capacity); dump(restored) must equal dump(original) (rows, offsets, values of all kinds, indexes, sorted order, key lookups, counts) and the history then continues on the restored collection under the value/live/key oracles; second phase: a three-block collection of ten column kinds in which one cell holds a filler string sized so that the uncompressed state is exactly 1 MiB + t bytes, for every t up to the size of everything that is not filler - the s2 reader hands out short reads at its 1 MiB block boundary, which thereby falls on every byte of every header and field once; non-trivial = at least 3 committed transactions",
+		{"C07", cfgC07, 1200, 32000, "one case = one seeded history with snapshot->restore cycles into fresh collections of the same schema (same or different capacity); dump(restored) must equal dump(original) (rows, offsets, values of all kinds, indexes, sorted order, key lookups, counts) and the history then continues on the restored collection under the value/live/key oracles; second phase: a three-block collection of ten column kinds in which one cell holds a filler string sized so that the uncompressed state is exactly 1 MiB + t bytes, for every t up to the size of everything that is not filler - the s2 reader hands out short reads at its 1 MiB block boundary, which thereby falls on every byte of every header and field once; third phase: collections filled block by block exactly to a block boundary, snapshotted while transactions commit at the hook points incl. the insert that opens the next block before / after the state is written - the complete stream must restore to the primary; non-trivial = at least 3 committed transactions",
 			map[string]int64{"restores": 60, "restored_rows": 1000}},
 		{"C11", cfgC11, 1600, 40000, "one case = one seeded insert/delete-heavy history over fragmented fill patterns (dense fill then sparse survivors around word and block boundaries); every offset returned by an insert is checked against the model's live set and the transaction's own reservations, after every step Range/Count/Txn.Count must equal the live set and every cell of a new row must be what its insert stored (anything else is stale data); non-trivial = at least 3 committed transactions",
 			map[string]int64{"txn_committed": 500}},
@@ -179,6 +179,17 @@ func init() {
 				withWatchdog(w, idx, fmt.Sprintf("E3:torn-snapshot:round%d", idx), 5*time.Minute, func() { tornSnapshotRound(w, idx) })
 			})
 		}
+		if p.id == "C11" || p.id == "C02" {
+			mp.add(func(tier string) Plan {
+				n := 2
+				if tier == "thorough" {
+					n = 16
+				}
+				return Plan{Cases: n, Workers: 2, MaxProcs: 8, Timeout: 40 * time.Minute, HangIsViol: true}
+			}, func(w *W, idx int) {
+				withWatchdog(w, idx, fmt.Sprintf("E3:reserve-beside-rollback:round%d", idx), 5*time.Minute, func() { reserveRound(w, idx) })
+			})
+		}
 		if p.id == "C11" {
 			mp.add(countPlan, func(w *W, idx int) {
 				withWatchdog(w, idx, fmt.Sprintf("E3:count:round%d", idx), 5*time.Minute, func() { countRound(w, idx) })
@@ -187,6 +198,14 @@ func init() {
 		if p.id == "C07" {
 			// states larger than one s2 block: the block boundary swept over every byte that is not filler
 			mp.add(func(string) Plan { return Plan{Cases: 8, Workers: 8, MaxProcs: 2, Timeout: 30 * time.Minute} }, func(w *W, idx int) { s2SweepCase(w, idx, 8) })
+			// sources that grow into a new block while the snapshot is being written
+			mp.add(func(tier string) Plan {
+				n := 8
+				if tier == "thorough" {
+					n = 64
+				}
+				return Plan{Cases: n, Workers: 8, MaxProcs: 1, Timeout: 30 * time.Minute}
+			}, func(w *W, idx int) { restoreGrowthCase(w, idx) })
 		}
 		if p.id == "C19" {
 			mp.add(racePlan(4, 40), func(w *W, idx int) {
